@@ -6,6 +6,7 @@ import (
 	"os"
 	"os/exec"
 	"path/filepath"
+	"strings"
 	"sync"
 	"time"
 
@@ -15,10 +16,19 @@ import (
 )
 
 type c13Base struct {
-	Name  string
-	Text  string
-	Ticks int64
+	Name    string
+	Text    string
+	Ticks   int64
+	Hangs   bool
+	HangObs *enga.Obs
 }
+
+// c13Wall: real-time limit of one generation in this check. The texts are a few kilobytes and take milliseconds; two
+// minutes is the property's "deadline of seconds where milliseconds are normal" with a wide margin for a loaded machine.
+const c13Wall = 120 * time.Second
+
+// c13BaseBudget: a tick budget no well-formed text of this size needs.
+func c13BaseBudget(text string) int64 { return 20_000_000 + 100_000*int64(len(text)) }
 
 var (
 	c13Once  sync.Once
@@ -46,8 +56,13 @@ func c13Bases(ctx *Ctx) []c13Base {
 		}
 		total := 0
 		for i := range c13bases {
-			o := enga.Run(enga.Case{Text: c13bases[i].Text, Variant: wl.Variant{Lang: "go"}, Sched: enga.Canonical(), Mode: "gen"})
+			t := c13bases[i].Text
+			o := enga.Run(enga.Case{Text: t, Variant: wl.Variant{Lang: "go"}, Sched: enga.Canonical(), Mode: "gen", Budget: c13BaseBudget(t), WallLimit: c13Wall})
 			c13bases[i].Ticks = o.Ticks
+			if o.Outcome == enga.OutHang || o.Outcome == enga.OutDeadlock {
+				c13bases[i].Hangs = true // the undamaged base does not finish on this tree: every case on it reports that
+				c13bases[i].HangObs = o
+			}
 			total += len(c13bases[i].Text) + 1
 			c13cum = append(c13cum, total)
 		}
@@ -186,6 +201,7 @@ func execC13(ctx *Ctx, in *Input) *Result {
 	res := &Result{}
 	var baseText string
 	var baseTicks int64
+	var baseHang *enga.Obs
 	if in.Text != "" && in.Corrupt == nil {
 		baseText = in.Text
 	} else {
@@ -200,6 +216,11 @@ func execC13(ctx *Ctx, in *Input) *Result {
 			}
 			baseText = bases[bi].Text
 			baseTicks = bases[bi].Ticks
+			if bases[bi].Hangs {
+				// the undamaged base does not finish; that run (made once per process) is the observation
+				baseHang = bases[bi].HangObs
+				baseTicks = 5000
+			}
 		}
 	}
 	text := baseText
@@ -209,7 +230,7 @@ func execC13(ctx *Ctx, in *Input) *Result {
 	}
 	if baseTicks == 0 {
 		// an explicit base (minimised replay): measure it under a budget no well-formed text of this size needs
-		o := enga.Run(enga.Case{Text: baseText, Variant: wl.Variant{Lang: "go"}, Sched: enga.Canonical(), Mode: "gen", Budget: 20_000_000 + 100_000*int64(len(baseText))})
+		o := enga.Run(enga.Case{Text: baseText, Variant: wl.Variant{Lang: "go"}, Sched: enga.Canonical(), Mode: "gen", Budget: c13BaseBudget(baseText), WallLimit: c13Wall})
 		baseTicks = o.Ticks
 		if o.Outcome == enga.OutHang || o.Outcome == enga.OutDeadlock {
 			// the base itself does not finish: damage is not even needed; judge the base as the text
@@ -222,7 +243,13 @@ func execC13(ctx *Ctx, in *Input) *Result {
 	if len(in.Scheds) > 0 {
 		sc = in.Scheds[0]
 	}
-	o := enga.Run(enga.Case{Text: text, Variant: in.Variant, Sched: sc, Mode: in.Mode, Budget: budget})
+	var o *enga.Obs
+	if baseHang != nil {
+		o, text = baseHang, baseText
+		in = &Input{Index: in.Index, Base: in.Base, Corrupt: &Corruption{Kind: "none"}, Mode: "gen", Variant: wl.Variant{Lang: "go"}, Extra: in.Extra}
+	} else {
+		o = enga.Run(enga.Case{Text: text, Variant: in.Variant, Sched: sc, Mode: in.Mode, Budget: budget, WallLimit: c13Wall})
+	}
 	logObs(res, o)
 	res.SimTicks += o.Ticks
 	res.Count("runs", 1)
@@ -232,7 +259,7 @@ func execC13(ctx *Ctx, in *Input) *Result {
 	}
 	if o.Outcome == enga.OutHang || o.Outcome == enga.OutDeadlock {
 		// ground truth: the real CLI on the same bytes, generous wall-clock deadline
-		realHangs, note := realCLIHangs(ctx, text, in)
+		realHangs, note := realCLIHangs(ctx, text, in, strings.HasPrefix(o.Diag, "still running after"))
 		if !realHangs {
 			res.Harness = fmt.Sprintf("simulated run ended %q (%s) but the real CLI terminated (%s): the tick budget or the seams misrepresent the code", o.Outcome, o.Diag, note)
 			return res
@@ -276,10 +303,11 @@ func hangShape(text string) string {
 
 var realHangChecks int
 
-func realCLIHangs(ctx *Ctx, text string, in *Input) (bool, string) {
-	// each confirmation costs 10 s of wall clock: confirm the first few per process, then trust the simulation
+func realCLIHangs(ctx *Ctx, text string, in *Input, always bool) (bool, string) {
+	// each confirmation costs 10 s of wall clock: confirm the first few per process, then trust the simulation - except
+	// for a hang decided by the real-time limit, which is always confirmed
 	realHangChecks++
-	if realHangChecks > 2 && ctx.Tier != "replay-confirm" {
+	if realHangChecks > 2 && ctx.Tier != "replay-confirm" && !always {
 		return true, "not re-confirmed (earlier hangs of this run were)"
 	}
 	bin := filepath.Join(ctx.Scratch, "yaccgo-real")
